@@ -4,12 +4,14 @@
 // constructor on a real pubsub + chain exchange and Start()ed, so its two goroutines run the production loop bodies) is
 // fed one event at a time through its public API; after every event the driver waits until the loop is idle (input
 // channels empty, then a no-op event taken), drains the completed-message queue, and writes
-//   one NDJSON line per input  (Reset, Complete, Arrive, Notify, Admit, Own, Tick, Prune, Drain, End) with a read-only dump of
-//                              the manager's buffers / index and of the chain exchange caches, and
-//   one NDJSON line per emitted message (Emit) with: which arrival it is (object identity), instance, slot, announced key,
-//                              the chain it was completed with, the justification value, byte-equality with the original
-//                              full message, the verdict of the real stage 2 (FullyValidateMessage) and of the real one-shot
-//                              validation of an independently completed copy.
+//
+//	one NDJSON line per input  (Reset, Complete, Arrive, Notify, Admit, Own, Tick, Prune, Drain, End) with a read-only dump of
+//	                           the manager's buffers / index and of the chain exchange caches, and
+//	one NDJSON line per emitted message (Emit) with: which arrival it is (object identity), instance, slot, announced key,
+//	                           the chain it was completed with, the justification value, byte-equality with the original
+//	                           full message, the verdict of the real stage 2 (FullyValidateMessage) and of the real one-shot
+//	                           validation of an independently completed copy.
+//
 // Messages are real, really signed GMessages of a 4-member committee; the wire form is produced by the production
 // ToPartialGMessage; stage 1 is the real PartiallyValidateMessage and only what it accepts is fed (unless the history is a
 // "bypass" history, which hands the manager messages the way a faulty caller could).
@@ -146,12 +148,12 @@ func (h *vhost) GetCommittee(context.Context, uint64) (*gpbft.Committee, error) 
 	return &gpbft.Committee{PowerTable: h.w.pt, Beacon: beacon, AggregateVerifier: h.w.agg}, nil
 }
 func (h *vhost) NetworkName() gpbft.NetworkName                      { return netName }
-func (h *vhost) RequestBroadcast(*gpbft.MessageBuilder) error         { return nil }
-func (h *vhost) RequestRebroadcast(gpbft.Instant) error               { return nil }
-func (h *vhost) Time() time.Time                                      { return time.Unix(1000, 0) }
-func (h *vhost) SetAlarm(time.Time)                                   {}
-func (h *vhost) Verify(k gpbft.PubKey, m, s []byte) error             { return h.w.sb.Verify(k, m, s) }
-func (h *vhost) Aggregate(k []gpbft.PubKey) (gpbft.Aggregate, error)  { return h.w.sb.Aggregate(k) }
+func (h *vhost) RequestBroadcast(*gpbft.MessageBuilder) error        { return nil }
+func (h *vhost) RequestRebroadcast(gpbft.Instant) error              { return nil }
+func (h *vhost) Time() time.Time                                     { return time.Unix(1000, 0) }
+func (h *vhost) SetAlarm(time.Time)                                  {}
+func (h *vhost) Verify(k gpbft.PubKey, m, s []byte) error            { return h.w.sb.Verify(k, m, s) }
+func (h *vhost) Aggregate(k []gpbft.PubKey) (gpbft.Aggregate, error) { return h.w.sb.Aggregate(k) }
 func (h *vhost) ReceiveDecision(context.Context, *gpbft.Justification) (time.Time, error) {
 	return time.Unix(5000, 0), nil
 }
@@ -644,10 +646,10 @@ func (w *world) flush() {
 // ---------------------------------------------------------------------------- messages as events
 
 type msgSpec struct {
-	kind   string
-	sender int
-	inst   int
-	value  []int // the chain the sender signed; nil = bottom (COMMIT only)
+	kind     string
+	sender   int
+	inst     int
+	value    []int // the chain the sender signed; nil = bottom (COMMIT only)
 	announce []int // nil = the production strip untouched; otherwise the announced key is replaced by this chain's key
 }
 
@@ -806,7 +808,7 @@ func (w *world) scripted() {
 	w.notify(10, cB)
 	w.notify(10, cA)
 	w.reset(4, 8, false, false, "admit-before-lookup")
-	w.admit(10, cC) // C, A, D discovered
+	w.admit(10, cC)               // C, A, D discovered
 	w.arrive(ms("P0", 1, 10, cA)) // buffered without a lookup (lookup raced with the admission)
 	w.arrive(ms("C0", 2, 10, cA))
 	w.arrive(ms("P0", 3, 10, cD))
